@@ -19,7 +19,10 @@ PROP = {'drive': ['Faults'],
                        'C18_scalers',
                        'C18_parser_fault',
                        'C18_parser_unaffected',
-                       'C18_parser_error'],
+                       'C18_parser_error',
+                       'C18_model_agrees',
+                       'C18_accepts_complete',
+                       'C18_dichotomy'],
  # budget = number of corpus fonts / table sets; every fault point k of each is enumerated
  'areas': [('faults', 8, 40)],
  'thorough_seeds': 1,
@@ -29,10 +32,11 @@ PROP = {'drive': ['Faults'],
              'say header.Read already rejects every cut before the end of the last table, which makes the decoders '
              'irrelevant for the property; what sfnt.Read does for k in the padding after the last table (accepts) is '
              'observed as a diagnostic stream only',
-             'C18_truncated / C18_reader_fault are stated for files produced by header.Write (domain of C03) and, '
-             'as C18_limited, for any file whose directory entries do not wrap around 2^32; acceptance of the '
-             'complete file by the model of header.Read is shown for a literal file and by correspondence, not as a '
-             'general theorem',
+             'C18_truncated / C18_reader_fault / C18_dichotomy are stated for files produced by header.Write (domain of '
+             'C03; acceptance additionally needs a supported scaler type, printable names and <= 280 tables, as '
+             'C03_read_write) and, as C18_limited, for any file whose directory entries do not wrap around 2^32; '
+             'for k in the padding between the end of the last allocation and the end of the file nothing is '
+             'claimed (the code accepts; diagnostic stream)',
              '(*cff.Font).Write: the section loop is modelled over the observed section lengths; the section contents '
              'are C13',
              'cff.Read on truncated / failing sources is checked by direct predicate on the real code for every k '
